@@ -426,6 +426,16 @@ func NewRunner(script string) *Runner {
 		}
 		r.Trace = append(r.Trace, "trace("+strings.Join(parts, ",")+")")
 		r.keep(args)
+		// a host that takes the list of a hash's entries to put it into an
+		// order of its own (for a report, say) works on a list that is its own
+		for _, a := range args {
+			if h, ok := a.(*object.Hash); ok && h != nil {
+				es := h.Entries()
+				for i, j := 0, len(es)-1; i < j; i, j = i+1, j-1 {
+					es[i], es[j] = es[j], es[i]
+				}
+			}
+		}
 		return &object.Void{}
 	})
 	// walk(x, n): a host function that looks at its argument the way the
